@@ -33,6 +33,11 @@ INTEGER_TYPES = ('unsigned long', 'std::size_t', 'size_t', 'unsigned int', 'unsi
 LINK_HELPERS = ('xor_list_set', 'xor_list_change', 'xor_list_insert', 'list_set_next', 'xor_link_block', 'insert_chunks')
 
 
+def inline_same_class(fn, callee, t):
+    """private helpers of the same class (an extracted common part of the special members) are seen through"""
+    return callee.cls == fn.cls and callee.kind == 'method' and callee.key != fn.key and len(callee.blocks) <= 30 and bool(fn.cls)
+
+
 def classes_with_moves(db):
     out = {}
     for f in db.fns.values():
@@ -60,9 +65,22 @@ def field_mentions(db, fn, depth=0, seen=None):
         return set()
     seen = seen | {fn.key}
     out = set()
+    # reference locals bound to (a part of) this / a parameter are names for that part
+    alias = {}
+    for e in fn.events():
+        if e['ev'] == 'decl':
+            for v in e['vars']:
+                if v.get('ref') and isinstance(v.get('init'), dict):
+                    alias[v['did']] = v['init']
+
+    def unalias(t, depth=0):
+        t = sym.strip_casts(t)
+        if isinstance(t, dict) and t.get('k') == 'local' and t.get('did') in alias and depth < 4:
+            return unalias(alias[t['did']], depth + 1)
+        return t
 
     def root_of(t):
-        t = sym.strip_casts(t)
+        t = unalias(t)
         while isinstance(t, dict) and t.get('k') in ('un',) and t['op'] in ('*', '&'):
             t = sym.strip_casts(t['e'])
         if isinstance(t, dict) and t.get('k') == 'this':
@@ -75,7 +93,7 @@ def field_mentions(db, fn, depth=0, seen=None):
 
     def members(t, mode):
         """outermost member chains rooted at this/param in term t"""
-        t0 = sym.strip_casts(t)
+        t0 = unalias(t)
         if not isinstance(t0, dict):
             return
         if t0.get('k') == 'member':
@@ -86,7 +104,7 @@ def field_mentions(db, fn, depth=0, seen=None):
                 if r:
                     out.add((r, cur['name'], mode))
                     break
-                cur = sym.strip_casts(cur.get('base'))
+                cur = unalias(cur.get('base'))
             else:
                 walk(cur, 'r')
             return
@@ -145,7 +163,10 @@ def field_mentions(db, fn, depth=0, seen=None):
             walk(e.get('e'))
         elif e['ev'] == 'decl':
             for v in e['vars']:
-                walk(v.get('init'))
+                if v.get('ref') and 'const' not in str(v.get('t', '')).split('&')[0]:
+                    members(v.get('init'), 'w')     # a mutable reference to the field: whoever holds it may write through it
+                else:
+                    walk(v.get('init'))
         elif e['ev'] in ('expr', 'return'):
             walk(e.get('e'))
     for b in fn.blocks.values():
@@ -230,7 +251,7 @@ def check_coverage(run, db, cls, ops):
         if kind in ('move-ctor', 'move-assign') and not missing:
             scalars = [f['name'] for f in crec['fields'] if (f.get('t') in INTEGER_TYPES or f.get('pointer')) and not f.get('static')]
             try:
-                S = [x for x in fwd.summarize(fn, db=db, roles={0: 'other'}, inline_pred=lambda a, c, t: False) if x.end == 'return']
+                S = [x for x in fwd.summarize(fn, db=db, roles={0: 'other'}, inline_pred=inline_same_class) if x.end == 'return']
             except sym.PathLimit:
                 S = []
             for F in scalars:
@@ -263,7 +284,8 @@ def check_emptiness(run, db, cls, ops):
         other = fn.params[0]['name']
         # small const accessors of the same class (empty(), capacity()) are inlined so that a guard like
         # `other.empty()` is seen as the comparison on the field it reads
-        S = [s for s in fwd.summarize(fn, db=db, inline_pred=lambda a, c, t: c.cls == cls and c.rec.get('constm') and len(c.blocks) <= 4)
+        S = [s for s in fwd.summarize(fn, db=db, inline_pred=lambda a, c, t: c.cls == cls and c.key != a.key and
+                                      ((c.rec.get('constm') and len(c.blocks) <= 4) or (c.kind == 'method' and not c.rec.get('constm') and len(c.blocks) <= 30)))
              if s.end == 'return']
         problems = []
         for s in S:
@@ -309,7 +331,7 @@ RELEASE_SHORTS = ('deallocate_block', 'virtual_memory_release', 'virtual_memory_
 def release_events(db, fn):
     """(callee short, canonical args, guard conditions) of release calls made directly by fn"""
     out = []
-    for s in fwd.summarize(fn, db=db, inline_pred=lambda a, c, t: False):
+    for s in fwd.summarize(fn, db=db, inline_pred=inline_same_class):
         if s.end != 'return':
             continue
         for c in list(s.calls) + [(repr(fc), fc.term, fc.event, 0) for fc in s.fwd]:
@@ -334,7 +356,7 @@ def check_release_before_overwrite(run, db, cls, ops):
         return
     want = {(r[0], r[1]) for r in rel_d}
     # the assignment must execute the same releases, before the first write to a field they read
-    S = [s for s in fwd.summarize(fn, db=db, inline_pred=lambda a, c, t: False) if s.end == 'return']
+    S = [s for s in fwd.summarize(fn, db=db, inline_pred=inline_same_class) if s.end == 'return']
     problems = []
     for sh, canon_call in sorted(want):
         found_all = True
@@ -462,7 +484,7 @@ def check_self_address(run, db, cls, ops):
         if fn is None or (kind == 'move-assign' and is_tmp_swap(fn)):
             continue
         problems = []
-        for s in fwd.summarize(fn, db=db, inline_pred=lambda a, c, t: False):
+        for s in fwd.summarize(fn, db=db, inline_pred=inline_same_class):
             for w in s.writes:
                 lhs, rhs = w[0], w[1]
                 m = re.match(r'^(this|\$\w+)\.(\w+)$', lhs)
@@ -539,7 +561,7 @@ def check_swap_exchanges(run, db, cls, ops):
         return
     roles = {0: 'a', 1: 'b'}
     try:
-        S = [s for s in fwd.summarize(fn, db=db, roles=roles, inline_pred=lambda a, c, t: False) if s.end == 'return']
+        S = [s for s in fwd.summarize(fn, db=db, roles=roles, inline_pred=inline_same_class) if s.end == 'return']
     except sym.PathLimit as e:
         run.broke(str(e))
         return
